@@ -247,6 +247,28 @@ class Checker:
             rep.ob('R19.4', fi, 'deliveries per element of self.%s[%s]' % (t[0], t[1]), ok,
                    'per-iteration delivery counts/arguments on the paths of the loop body: %s (must be exactly one call '
                    'with the received value)' % sorted(map(str, counts)), line=lp.lineno)
+        # eager comprehension forms of the same fan-out are accepted; short-circuiting consumers (all/any) are not
+        for node in walk_own(fi.node):
+            if isinstance(node, (ast.ListComp, ast.GeneratorExp, ast.SetComp)) and len(node.generators) == 1:
+                t = table_of(node.generators[0].iter)
+                if not t or t[0] not in ('forwarding', 'output_functions'):
+                    continue
+                par = fi.module.parents.get(node)
+                eager = isinstance(node, ast.ListComp) or (isinstance(par, ast.Call) and isinstance(par.func, ast.Name) and par.func.id in ('list', 'tuple', 'sum', 'sorted'))
+                lazy_consumer = src(par.func) if isinstance(par, ast.Call) else 'a generator'
+                lv = node.generators[0].target.id if isinstance(node.generators[0].target, ast.Name) else None
+                el = node.elt
+                if t[0] == 'forwarding':
+                    deliv = isinstance(el, ast.Call) and isinstance(el.func, ast.Attribute) and el.func.attr == 'sendData' and src(el.func.value) == lv
+                else:
+                    deliv = isinstance(el, ast.Call) and isinstance(el.func, ast.Name) and el.func.id == lv
+                good_arg = deliv and len(el.args) >= 1 and isinstance(el.args[0], ast.Name) and el.args[0].id in rx
+                ok = eager and good_arg and t[1] == keyname and not node.generators[0].ifs
+                seen_tables.setdefault(t[0], []).append(node)
+                rep.ob('R19.4', fi, 'fan-out comprehension over self.%s[%s]' % (t[0], t[1]), ok,
+                       ('deliveries are produced lazily and consumed by %s, which stops at the first falsy result: later destinations never '
+                        'receive the message' % lazy_consumer) if not eager else 'comprehension does not deliver the received value once per element of the '
+                       'receiving endpoint\'s rule list', line=node.lineno)
         for tname in ('forwarding', 'output_functions'):
             n = len(seen_tables.get(tname, []))
             rep.ob('R19.4', fi, 'fan-out loops over self.%s' % tname, n == 1,
